@@ -24,7 +24,7 @@ use lspgen::*;
 struct Job {
     idx: usize,
     prog: Prog,
-    /// function body blocks carry byte spans (F6 repaired): the nesting hypothesis of the hover search is claimed too
+    /// function body blocks carry byte spans (D60 repaired): the nesting hypothesis of the hover search is claimed too
     f6_fixed: bool,
 }
 
@@ -195,10 +195,15 @@ fn run(job: &Job) -> Out {
             }
         }
         for p in &f.probes {
+            if p.ty == NO_TYPE && !job.f6_fixed {
+                // D60: the body block's span swallows the header until the fix lands
+                continue;
+            }
             for off in p.lo..p.hi {
                 bump(&mut out, &format!("type:{}", p.what), 1);
                 let t = a.type_at(fid, off);
-                if t.as_deref() != Some(p.ty.as_str()) {
+                let want = if p.ty == NO_TYPE { None } else { Some(p.ty.as_str()) };
+                if t.as_deref() != want {
                     fails += 1;
                     if fails <= 2 {
                         out.spec.push(format!(
@@ -235,7 +240,7 @@ fn probe_d12() -> bool {
     .unwrap_or(false)
 }
 
-/// does a function body block start where its `{` is (F6 repaired: parse_func_def used the token index as byte offset)?
+/// does a function body block start where its `{` is (D60 repaired: parse_func_def used the token index as byte offset)?
 fn probe_f6() -> bool {
     catch_unwind(|| {
         let src = "// a comment line to push offsets up\nfn f(a: string) -> int {\n  let x = 1\n}\n";
@@ -251,9 +256,9 @@ fn main() {
     let mut ctx = Ctx::from_env("C35");
     let f6_fixed = probe_f6();
     ctx.notes.push(if f6_fixed {
-        "F6: function body blocks carry byte spans; the nesting hypothesis of the hover-search theorem (`spantree wfi`) is checked on every file".to_string()
+        "D60: function body blocks carry byte spans; the nesting hypothesis of the hover-search theorem (`spantree wfi`) is checked on every file and hover on function headers (keyword, parentheses, arrow) must report nothing".to_string()
     } else {
-        "F6: parse_func_def still uses the token index as the byte offset of the body block (its span starts before the function), so the nesting hypothesis of the hover-search theorem does not hold on parser output; the unconditional theorem C35_searchI_spec_unconditional applies; `spantree wfi` is not claimed".to_string()
+        "D60: parse_func_def still uses the token index as the byte offset of the body block (its span starts before the function), so the nesting hypothesis of the hover-search theorem does not hold on parser output; the unconditional theorem C35_searchI_spec_unconditional applies; `spantree wfi` and the header hover probes join the stream once the fix lands".to_string()
     });
     let task_ok = probe_task();
     let d12_ok = probe_d12();
